@@ -618,6 +618,17 @@ func sameBuf(a, b ssa.Value) bool {
 	if a == b {
 		return true
 	}
+	// the same field of the same object, read twice in one function with no store to it in between
+	// (t.scratch handed to Read, then t.scratch[:n]): the same buffer
+	if sameFieldUnchanged(a, b) {
+		return true
+	}
+	if sa, ok := a.(*ssa.Slice); ok && sa.Low == nil && sameFieldUnchanged(strip(sa.X), b) {
+		return true
+	}
+	if sb, ok := b.(*ssa.Slice); ok && sb.Low == nil && sameFieldUnchanged(a, strip(sb.X)) {
+		return true
+	}
 	// a lazily allocated buffer (var buf []byte; if buf == nil { buf = make(...) }): every version of
 	// the variable is nil-before-the-loop or the one allocation
 	if la, oka := lazyBuffer(a); oka {
@@ -1064,4 +1075,53 @@ func indexUnderLenGuard(fn *ssa.Function, at ssa.Instruction, x, idx ssa.Value) 
 		return fmt.Sprintf("index i+%d behind a test that i+k < len(x) with k >= %d, i a non-negative counter", ik, ik), true
 	}
 	return "", false
+}
+
+// sameFieldUnchanged: a and b are loads of the same field of the same object in one function, a
+// dominates b, and no store to that field (through any base) lies on a path between them.
+func sameFieldUnchanged(a, b ssa.Value) bool {
+	la, ok1 := a.(*ssa.UnOp)
+	lb, ok2 := b.(*ssa.UnOp)
+	if !ok1 || !ok2 || la.Op != token.MUL || lb.Op != token.MUL {
+		return false
+	}
+	fa, ok1 := la.X.(*ssa.FieldAddr)
+	fb, ok2 := lb.X.(*ssa.FieldAddr)
+	if !ok1 || !ok2 || fa.Field != fb.Field || la.Parent() != lb.Parent() {
+		return false
+	}
+	if fa.X != fb.X && localVal(fa.X) != localVal(fb.X) {
+		return false
+	}
+	first, second := la, lb
+	if !dominatesInstr(first, second) {
+		first, second = lb, la
+		if !dominatesInstr(first, second) {
+			return false
+		}
+	}
+	_, fv, _ := fieldOfAddr(fa)
+	isStore := func(in ssa.Instruction) bool {
+		st, ok := in.(*ssa.Store)
+		if !ok {
+			return false
+		}
+		_, f2, ok := fieldOfAddr(st.Addr)
+		return ok && f2 == fv
+	}
+	// a store reachable after `first` from which `second` is still reachable
+	fn := first.Parent()
+	for _, blk := range fn.Blocks {
+		for _, in := range blk.Instrs {
+			if !isStore(in) {
+				continue
+			}
+			afterFirst := dominatesInstr(first, in) || reachableBlock(fn, first.Block(), blk) && blk != first.Block()
+			beforeSecond := reachableBlock(fn, blk, second.Block()) && (blk != second.Block() || instrIndex(in) < instrIndex(second))
+			if afterFirst && beforeSecond {
+				return false
+			}
+		}
+	}
+	return true
 }
